@@ -458,7 +458,7 @@ func (e *Engine) freshSpec(env *Env, fun string, args []Expr) (TV, bool, error) 
 		if t, ok := env.old.heap[key]; ok {
 			old = t
 		} else {
-			old = e.heapInit(key, sort, false)
+			old = e.heapLazy(env.s, key, sort, lazySeq(key, env.old.pending, env.old.allSeq, env.old.allPrev, env.old.allExcept))
 		}
 		if cur.S == old.S {
 			return TTrue
@@ -488,7 +488,7 @@ func (e *Engine) freshSpec(env *Env, fun string, args []Expr) (TV, bool, error) 
 		if t, ok := env.old.heap[key]; ok {
 			old = t
 		} else {
-			old = e.heapInit(key, sort, false)
+			old = e.heapLazy(env.s, key, sort, lazySeq(key, env.old.pending, env.old.allSeq, env.old.allPrev, env.old.allExcept))
 		}
 		if cur.S == old.S {
 			return TTrue
@@ -573,7 +573,7 @@ func (e *Engine) freshSpec(env *Env, fun string, args []Expr) (TV, bool, error) 
 		if t, ok := env.old.heap[lk]; ok {
 			old = t
 		} else {
-			old = e.heapInit(lk, sort, false)
+			old = e.heapLazy(env.s, lk, sort, lazySeq(lk, env.old.pending, env.old.allSeq, env.old.allPrev, env.old.allExcept))
 		}
 		if cur.S == old.S {
 			return TV{TTrue, boolT}, true, nil
